@@ -392,6 +392,45 @@ def rule_r4(chk, p, t):
     r.guard(av.qualname, three)
 
 
+def _inline_helper_calls(e, fi, t, depth=2):
+    """Replace calls of small pure helpers (module functions / static methods whose body is single-definition
+    locals and one return) by their returned expression with the arguments substituted."""
+    import copy
+
+    from rsa.terms import inline_locals as _inl
+
+    if depth <= 0:
+        return e
+
+    class T(ast.NodeTransformer):
+        def visit_Call(self, c):
+            self.generic_visit(c)
+            tgs = [tg for tg in t.callees(c, fi) if hasattr(tg, "node") and isinstance(tg.node, ast.FunctionDef)]
+            if len(tgs) != 1:
+                return c
+            h = tgs[0]
+            if h.kind not in ("function", "staticmethod", "nested"):
+                return c
+            body = [b for b in h.node.body if not (isinstance(b, ast.Expr) and isinstance(b.value, ast.Constant))]
+            rets = [b for b in body if isinstance(b, ast.Return)]
+            if len(rets) != 1 or rets[0] is not body[-1] or any(not isinstance(b, (ast.Assign, ast.AnnAssign, ast.Return)) for b in body):
+                return c
+            params = [a.arg for a in h.node.args.posonlyargs + h.node.args.args]
+            binding = dict(zip(params, c.args))
+            binding.update({k.arg: k.value for k in c.keywords if k.arg})
+            if set(params) - set(binding):
+                return c
+            inner = _inl(h, rets[0].value)
+
+            class S(ast.NodeTransformer):
+                def visit_Name(self, n):
+                    return copy.deepcopy(binding[n.id]) if n.id in binding else n
+
+            return _inline_helper_calls(S().visit(copy.deepcopy(inner)), fi, t, depth - 1)
+
+    return T().visit(copy.deepcopy(e))
+
+
 def rule_r5(chk, p, t):
     r = chk.rule(
         "C07.R5",
@@ -415,8 +454,9 @@ def rule_r5(chk, p, t):
             rets = [n for n in walk_no_nested(m.node) if isinstance(n, ast.Return)]
             require(len(rets) == 1, "single return expected", m.node)
             bad = []
-            if canon(rets[0].value) != canon(ast.parse(formula, mode="eval").body):
-                bad.append(f"formula is `{unparse(rets[0].value)}`, documented `{formula}`")
+            val = _inline_helper_calls(rets[0].value, m, t)
+            if canon(val) != canon(ast.parse(formula, mode="eval").body):
+                bad.append(f"formula is `{unparse(val)}`, documented `{formula}`")
             defs = single_defs(m.node)
             for local, ty in types.items():
                 if local not in formula:
@@ -447,6 +487,15 @@ def rule_r5(chk, p, t):
 
     def three():
         loops = [n for n in walk_no_nested(nm.node) if isinstance(n, ast.For)]
+        if not loops:
+            # vectorised form: per-metric maxima, then a per-metric decision whether to divide
+            glob = [n for n in walk_no_nested(nm.node) if isinstance(n, ast.If) and any(isinstance(c, ast.Call) and call_name(c) in ("all", "any") for c in ast.walk(n.test)) and any(isinstance(x, (ast.AugAssign, ast.Assign)) for b in n.body for x in ast.walk(b))]
+            if glob:
+                r.violation(nm.qualname, f"normalisation-global-guard:{unparse(glob[0].test)[:50]}", f"normalizeMetrics divides under the single guard `{unparse(glob[0].test)}`: whether *any one* metric has a positive maximum decides the normalisation of *all* metrics - with one metric that is zero or negative for every pair (time since observation at the first step) no metric is normalised and rewards are no longer a combination of terms bounded by one", nm.loc(glob[0]))
+                return
+            masked = [c for c in ast.walk(nm.node) if isinstance(c, ast.Call) and call_name(c) in ("where", "divide", "maximum")]
+            if masked:
+                raise Undecided("vectorised normalisation with a per-metric mask: form not modelled", nm.node)
         require(len(loops) == 1, "one loop over metrics expected", nm.node)
         lp = loops[0]
         var = lp.target.id
